@@ -125,7 +125,7 @@ Lemma step_ok : forall s o, InvA s -> guard NH true false s o ->
 Proof.
   intros s o IA [_ G]. pose proof IA as [I Ac]. destruct (acyclic_bounded s Ac) as [rank Rk].
   assert (TRIV : Inv s /\ K0 s s) by (split; [auto | apply K0_refl]).
-  destruct o as [k d|p key c|p key|p l|p key|p key|n|n|n|n|n|n|n d|n]; unfold step; try (destruct G; fail).
+  destruct o as [k d|p key c|p key|p l|p key|p key|n|n|n|n|n|n|n d|n|a b]; unfold step; try (destruct G; fail).
   - (* new *) simpl. split; [apply Inv_new; auto|].
     intros n x' E C. apply nth_app_new in E. destruct E as [[L E]|[-> ->]]; [|discriminate]. exists x'. auto.
   - destruct (setitem s p key c) as [s'|e] eqn:E; simpl; auto.
@@ -176,6 +176,7 @@ Proof.
       split; auto. apply K0_keepc; auto. }
     unfold swhid, get. destruct (nth_error s n) as [x|] eqn:Ex; simpl; auto.
     destruct (kind x); simpl; auto.
+  - (* == : the heap is not touched *) simpl. exact TRIV.
 Qed.
 
 Lemma step_inv : forall s o, InvA s -> guard NH true false s o -> InvA (fst (step NH true false s o)).
@@ -251,7 +252,7 @@ Lemma failed_op_is_noop : forall s o e, InvA s -> guard NH true false s o ->
   snd (step NH true false s o) = OutErr e -> fst (step NH true false s o) = s.
 Proof.
   intros s o e [I _] [_ G] H.
-  destruct o as [k d|p key c|p key|p l|p key|p key|n|n|n|n|n|n|n d|n]; unfold step in *; try (destruct G; fail).
+  destruct o as [k d|p key c|p key|p l|p key|p key|n|n|n|n|n|n|n d|n|a b]; unfold step in *; try (destruct G; fail).
   - discriminate.
   - destruct (setitem s p key c); simpl in *; [discriminate | reflexivity].
   - destruct (delitem true s p key) as [s' [e0|]] eqn:E; simpl in *; [|discriminate].
@@ -267,6 +268,7 @@ Proof.
   - destruct (collect NH false (S (length s)) n s) as [[s' h]|e0]; simpl in *; [discriminate | reflexivity].
   - destruct (reset_collect (S (length s)) n s) as [s'|e0]; simpl in *; [discriminate | reflexivity].
   - destruct (swhid NH false n s) as [[s' h]|e0]; simpl in *; [discriminate | reflexivity].
+  - reflexivity.
 Qed.
 
 (* swhid() of a Directory / Content node: the object id is the hash *)
